@@ -426,6 +426,19 @@ def check_polylin(case, rec):
         else:
             rec.check('poly-superposition', False, key='poly-superposition:sparse-terms',
                       msg=f'{fam}: terms() returned {len(ts)} entries for {N} coefficients of which some are exactly zero')
+    # a default-constructed object holds the zero vector and evaluates to zero (linearity) - also after ANOTHER
+    # default-constructed object had one of its coefficients set
+    A_ = cls()
+    k_ = int(prng.integers(min(36, len(A_.coeffs))))
+    old_ = A_.coeffs[k_]
+    try:
+        A_.coeffs[k_] = 0.25 * sc
+        vB = np.broadcast_to(np.asarray(cls().poly(r, p), float), r.shape)
+    finally:
+        A_.coeffs[k_] = old_
+    rec.check('poly-linear', bool(np.all(vB == 0.0)), key='poly-linear:default-object-is-zero',
+              msg=f'{fam}: a freshly default-constructed object evaluates to {float(np.max(np.abs(vB))):.3e} after coefficient {k_} '
+                  f'of another default-constructed object was set')
     # ONE polynomial object asked several times: the same radii at other azimuths (a rotated sample pattern, a walk round a
     # ring), then other radii at the same azimuths - every answer is the polynomial's value at the points asked for
     zobj = cls(coeffs=np.array(c1))
